@@ -150,7 +150,25 @@ def check_orientation(run, A):
                 labels = ['<raises>']
             got.append(labels)
             ok = ok and labels == [f'independent{i}' for i in range(nb)] + ['reference', 'estimate']
+    expansion = None
     if not recognised:
+        # |a - b|^2 written as |a|^2 + |b|^2 - 2 Re<a, b>: a difference of two large, nearly equal numbers for close rows
+        for x in walk_terms(r):
+            if x.op == 'binop' and x.args[0] == 'Sub':
+                lhs, rhs = strip_views(x.args[1]), strip_views(x.args[2])
+                crossing = [y for y in walk_terms(rhs) if (call_parts(y)[0] or '') in ('method:multiply', 'numpy.einsum', 'numpy.matmul', 'numpy.dot', 'numpy.tensordot', 'numpy.inner')
+                            or (y.op == 'binop' and y.args[0] == 'MatMult')]
+                if crossing and data_derives(rhs, 'mask') and data_derives(rhs, 'reference_mask') and lhs.op == 'binop' and lhs.args[0] == 'Add' \
+                        and data_derives(lhs, 'mask') and data_derives(lhs, 'reference_mask'):
+                    expansion = x
+                    break
+    if expansion is not None:
+        from ..walk import norm_stmt
+        run.violation('ORIENT', '_ScoreMatrix.euclidean: the distance is the norm of the row difference', fn.loc(getattr(expansion, 'node', None)),
+                      f'`{norm_stmt(expansion.node) if getattr(expansion, "node", None) is not None else "|a|^2 + |b|^2 - 2<a, b>"}` takes the squared distance as |a|^2 + |b|^2 - 2<a, b>: '
+                      f'for two distinct but close rows this is a difference of nearly equal numbers with absolute error eps * |row|^2 - their distance comes out as 0 or rounding noise '
+                      f'and is no longer separated from an exact match; the norm of the difference is exact', construct=f'ORIENT::{q}::distance-by-expansion')
+    elif not recognised:
         run.unresolved('ORIENT', '_ScoreMatrix.euclidean: negative distance, rows = reference after the transpose', fn.loc(), why)
     else:
         run.check(ok, 'ORIENT', '_ScoreMatrix.euclidean: negative distance, rows = reference after the transpose', fn.loc(), '',
